@@ -56,6 +56,9 @@ def gen_case(rng, mode):
     return dict(line=line, p=p, cts=cts, ncell=ncell, mode=mode, scales=scales)
 
 
+EMPTIED = {}        # id(cells dict of an iteration) -> cells emptied during that iteration
+
+
 def parse_dump(line):
     secs = line.strip().split("|")
     init = []
@@ -71,17 +74,24 @@ def parse_dump(line):
         t = s.split()
         assert t[0] == "I"
         k = int(t[1]); cells = {}
-        order = []
+        order = []; emptied = []
         for c in " ".join(t[2:]).split(";"):
             c = c.split()
             if not c:
+                continue
+            if c[0] == "X":
+                emptied.append(dict(id=int(c[1]), V=unhx(c[2]), minvol=unhx(c[3]), vdiv=unhx(c[4]), in_divider=int(c[5])))
                 continue
             cid = int(c[0])
             cells[cid] = dict(id=cid, cls=int(c[1]), V=unhx(c[2]), vt=unhx(c[3]), P=unhx(c[4]), g=unhx(c[5]), vdiv=unhx(c[6]),
                               ready=int(c[7]), below=int(c[8]))
             order.append(cid)
+        EMPTIED[id(cells)] = emptied
         its.append((k, cells, order))
     return init, its
+
+
+CYCLE_WRAPS = ("_ZN4cell10clear_dataEv", "_ZN12cell_divider3runERSt6vectorISt10shared_ptrI4cellESaIS3_EEdRK18local_mesh_refinerRjb")
 
 
 def eq(a, b, scale=None):
@@ -98,7 +108,7 @@ def run(ck):
     ok = ck.proofs()
     if not ok:
         ck.report(dict(log=ck.proof_res["log"][-3000:]), unchecked="Properties_C04.vo", what="proof obligations of C04 no longer check")
-    impl = vlib.build_driver("cellcycle", wrap_clock=True)
+    impl = vlib.build_driver("cellcycle", wrap_clock=True, extra_srcs=("cycle_wrap.cpp",), wraps=CYCLE_WRAPS)
     model = vlib.ocaml_model()
     rng = random.Random(ck.seed * 4409 + 4)
     cases = [gen_case(rng, 0) for _ in range(n0)] + [gen_case(rng, 1) for _ in range(n1)]
@@ -155,14 +165,23 @@ def run(ck):
             for i in cur:
                 if i in gone:
                     fails.append((ci, "removed_never_reappears", "cell id %d reappears at iteration %d" % (i, k)))
+            emptied = EMPTIED.get(id(cur), [])
+            if c["mode"] == 1:
+                # exact: every cell emptied outside the divider carried a volume below its minimum; every cell emptied inside the
+                # divider was eligible (volume at least its division volume) on an iteration where the divider runs
+                for e in emptied:
+                    if e["in_divider"]:
+                        if not (e["V"] >= e["vdiv"]) or k % 5 != 0:
+                            fails.append((ci, "divided_iff_eligible", "cell %d emptied by the divider at iteration %d with volume %r, division volume %r" % (e["id"], k, e["V"], e["vdiv"])))
+                    else:
+                        stats["removals"] += 1
+                        if not (e["V"] < e["minvol"]):
+                            fails.append((ci, "removed_iff_below_min", "cell %d removed at iteration %d with volume %r >= min volume %r" % (e["id"], k, e["V"], e["minvol"])))
             for i, pc in prev.items():
                 if i not in cur:
                     gone.add(i)
-                    if not new_ids:
-                        stats["removals"] += 1
-                        ctm = c["cts"][i] if i < len(c["cts"]) else None
-                        if ctm and pc["V"] * sc ** 3 > 1.25 * ctm["minvol"] and c["mode"] == 1 and ctm["minvol"] > 0:
-                            fails.append((ci, "removed_iff_below_min", "cell %d removed at iteration %d with volume about %r >= min volume %r" % (i, k, pc["V"] * sc ** 3, ctm["minvol"])))
+                    if c["mode"] == 1 and not any(e["id"] == i for e in emptied):
+                        fails.append((ci, "removed_iff_below_min", "cell %d left the population at iteration %d without having been emptied by the removal step or the divider" % (i, k)))
             seen |= set(cur)
             for i, cc in cur.items():
                 if i not in prev or i >= len(c["cts"]):
@@ -237,7 +256,7 @@ def run(ck):
 
 def replay(ck, path):
     j = json.load(open(path))
-    impl = vlib.build_driver("cellcycle", wrap_clock=True)
+    impl = vlib.build_driver("cellcycle", wrap_clock=True, extra_srcs=("cycle_wrap.cpp",), wraps=CYCLE_WRAPS)
     out = vlib.run([impl], input=j["case"]["input"] + "\n", env={"OMP_NUM_THREADS": "1"}).stdout
     print(out[:3000])
     return 0
